@@ -397,6 +397,79 @@ theorem delays_honoured_run (cfg : Cfg) (cbs : List Nat) (evs : List TEv) (hacc 
       simp only [Nat.add_sub_cancel] at hg3
       rw [hp't, htq]; omega
 
+/-- … and a multicomm that returns its replies does not return before the delay of the request sent last has passed
+(p: position of the last send of the call, b: position of the return). -/
+theorem delays_honoured_return (cfg : Cfg) (cbs : List Nat) (evs : List TEv) (hacc : Accepted cfg cbs evs)
+    (c a p b : Nat) (reqs : List Req) (rs : List Bytes) (ha : evAt evs a = some (.call c .multi reqs)) (hap : a < p) (hpb : p < b)
+    (hnr : ∀ m, a < m → m < b → isRetOf c (evAt evs m) = false)
+    (hp : sendAt evs p = some c) (hb : evAt evs b = some (.ret c (.ok rs))) (hno : ∀ m, p < m → m < b → sendAt evs m ≠ some c) :
+    timeAt evs p + (reqs.getD (sendsIn evs c a p).length noReq).delay ≤ timeAt evs b := by
+  unfold Accepted at hacc
+  cases hex : exec { cfg := cfg, cbsReg := cbs } evs with
+  | none => simp [hex] at hacc
+  | some sf =>
+    have hblt : b < evs.length := by
+      false_or_by_contra; rename_i hn
+      rw [evAt_none evs b (by omega)] at hb; simp at hb
+    obtain ⟨eb, heb⟩ : ∃ eb, evs[b]? = some eb := ⟨evs[b], by simp [hblt]⟩
+    have hv : eb.ev = .ret c (.ok rs) := by simpa [evAt, heb] using hb
+    obtain ⟨sk, sk', hpre, hst⟩ := exec_cut _ evs b eb heb sf hex
+    have hl := linv_exec cfg cbs (evs.take b) sk hpre
+    have hg := ginv_exec cfg cbs (evs.take b) sk hpre
+    have hlen : (evs.take b).length = b := by simp; omega
+    have hclk : sk.clock ≤ eb.t := by
+      unfold step at hst; split at hst
+      · simp at hst
+      · omega
+    have htb : timeAt evs b = eb.t := by simp [timeAt, heb]
+    rw [step_caller_form sk eb c (by rw [hv]; rfl)] at hst
+    split at hst
+    · simp at hst
+    · rw [hv] at hst
+      obtain ⟨hpc, hfail⟩ := step_ret_ok _ sk' eb.t c c rs hst
+      simp only at hpc hfail
+      have hnidle : (sk.callers c).pc ≠ .idle := by rcases hpc with h | h <;> (rw [h]; simp)
+      obtain ⟨a', ha'l, hev', hnr', huniq, hcnt, hlast⟩ := hl.l1 c hnidle
+      have haa : a = a' := by
+        apply huniq a
+        · rw [evAt_take evs b a (by omega), ha]; simp [isCallOf]
+        · intro m h1 h2; rw [hlen] at h2; rw [evAt_take evs b m h2]; exact hnr m h1 h2
+      subst haa
+      rw [evAt_take evs b a (by omega), ha] at hev'
+      simp only [Option.some.injEq, Ev.call.injEq, true_and] at hev'
+      obtain ⟨hkind, hreqs⟩ := hev'
+      have hcount : (sk.callers c).sent = (sendsIn evs c a p).length + 1 := by
+        rw [hcnt, hlen, sendsIn_take]
+        have := sendsIn_last evs c a p hap hp (b - (p + 1)) (fun m h1 h2 => hno m h1 (by omega))
+        rw [show p + 1 + (b - (p + 1)) = b by omega] at this
+        rw [this]; simp
+      obtain ⟨p', hap', hp'l, hp's, hp'no, hp't⟩ := hlast (by omega)
+      rw [hlen] at hp'l
+      have hpp : p' = p := by
+        rcases Nat.lt_trichotomy p' p with h | h | h
+        · exact absurd (by rw [sendAt_take evs b p hpb]; exact hp) (hp'no p h (by rw [hlen]; exact hpb))
+        · exact h
+        · rw [sendAt_take evs b p' hp'l] at hp's
+          exact absurd hp's (hno p' h hp'l)
+      subst hpp
+      rw [timeAt_take evs b p' hp'l] at hp't
+      -- a multicomm returns from `done` (rcheck is doPoll's)
+      have hdone : (sk.callers c).pc = .done := by
+        rcases hpc with h | h
+        · exact h
+        · have hk := (hg c).g1 (by rw [h]; rfl)
+          have hk3 := (hg c).g3 hkind.symm (by omega) (by rw [h]; rfl)
+          -- rcheck is reached by a multicomm only after the delay as well; but a return from rcheck needs kind = poll
+          exfalso
+          have := hst
+          simp only [stepCaller, h] at this
+          simp [← hkind] at this
+      have hg7 := (hg c).g7 hdone hfail hkind.symm (by omega)
+      unfold lastDelay at hg7
+      rw [← hreqs, hcount] at hg7
+      simp only [Nat.add_sub_cancel] at hg7
+      rw [hp't, htb]; omega
+
 /-- stale data discarded, step level: a `send` is accepted only from the drain state, when everything that had
 arrived on the connection has been read away and the device has not closed; the receive buffer is emptied -/
 theorem stale_discarded_partial (s s' : State) (t c conn n : Nat) (d : Bytes)
